@@ -100,9 +100,22 @@ pub fn one_case(rep: &Report, idx: usize, case: &CCase, inj: &Injection, reader_
         } else {
             let frag = reader_sel & 16 != 0;
             let fs = (reader_sel >> 12) as usize;
+            // One HTTP clone in four meets a flaky link: the first chunk-data response ends
+            // in mid-body once and the user asked for retries — the clone must still
+            // reproduce the source (the transfer resumes, §C08).
+            let flaky = (reader_sel >> 7) % 4 == 0;
+            if flaky {
+                spec.retries = Some(2);
+            }
             server = Server::start(
                 archive.clone(),
-                Arc::new(move |_r, _f| {
+                Arc::new(move |r, _f| {
+                    if flaky && r.n == 2 {
+                        let len = r.range.map(|(a, e)| (e + 1 - a) as usize).unwrap_or(0);
+                        if len >= 2 {
+                            return Action::CutAfter(1 + fs % (len - 1));
+                        }
+                    }
                     if frag {
                         Action::Fragmented(vec![1 + fs % 7, 1 + fs % 1000, 1 + fs % 40_000])
                     } else {
